@@ -17,6 +17,8 @@ import (
 	"encoding/json"
 	"errors"
 	"fmt"
+	"io"
+	"io/fs"
 	"os"
 	"runtime"
 	"sync"
@@ -31,6 +33,8 @@ import (
 	"pgregory.net/rapid"
 
 	"verif/internal/evid"
+	"verif/internal/wasiproxy"
+	"verif/internal/wasmenc"
 	"verif/internal/wz"
 )
 
@@ -58,6 +62,13 @@ type Case struct {
 	// Listener: "" | "all": the guest modules are compiled with an experimental
 	// FunctionListenerFactory in the context that attaches a listener to every function
 	Listener string `json:"listener,omitempty"`
+	// Noise: things done in the same runtime after the guest modules were instantiated and before
+	// the call starts: "dup-name" (an instantiation under the name of the called module: refused),
+	// "failing-start" (a module whose start function traps), "cancelled-start" (a module with a
+	// spinning start function instantiated with an already cancelled context), "other" (another
+	// instance that stays open), "other-closed" (another instance, closed again), "fs-close-error"
+	// (a WASI guest with a mounted fs.FS whose root directory fails to close, touched by the guest)
+	Noise []string `json:"noise,omitempty"`
 	// Overlap: further calls on the same instance, each on its own goroutine and api.Function
 	Overlap *Overlap `json:"overlap,omitempty"`
 }
@@ -88,11 +99,21 @@ func (c *Case) wantCode() uint32 {
 		return sys.ExitCodeContextCanceled
 	case "timeout", "done-deadline":
 		return sys.ExitCodeDeadlineExceeded
-	case "close-code":
+	case "close-code", "rt-close-code":
 		return c.Code
 	}
 	return 0
 }
+
+func (c *Case) closeCause() bool {
+	switch c.Cause {
+	case "close", "close-code", "rt-close", "rt-close-code":
+		return true
+	}
+	return false
+}
+
+func (c *Case) runtimeCause() bool { return c.Cause == "rt-close" || c.Cause == "rt-close-code" }
 
 // Overlap describes calls that overlap with the non-terminating call without being nested in it.
 // Every entry names how the call's context relates to the context of the main call: "same" (the
@@ -114,6 +135,97 @@ type Result struct {
 	Outcome    string // "exit" | "stack-overflow" | "ok" | other
 	Heartbeat  bool   // the guest was running when the trigger was armed
 	TriggerLag time.Duration
+}
+
+// ---- noise ----
+
+var (
+	binTrapStart = func() []byte { // (func unreachable) (start 0)
+		m := &wasmenc.Module{}
+		m.Start = wasmenc.P(m.AddFunc(nil, nil, nil, wasmenc.NewB().Unreachable().Bytes()))
+		return m.Encode()
+	}()
+	binSpinStart = func() []byte { // (func (loop (br 0))) (start 0)
+		m := &wasmenc.Module{}
+		m.Start = wasmenc.P(m.AddFunc(nil, nil, nil, wasmenc.NewB().Loop().Br(0).End().Bytes()))
+		return m.Encode()
+	}()
+	binHealthy = func() []byte {
+		m := &wasmenc.Module{}
+		m.ExportFunc("f", m.AddFunc(nil, nil, nil, wasmenc.NewB().Nop().Bytes()))
+		return m.Encode()
+	}()
+)
+
+// failFS is a file system whose root directory fails to close (think of a network mount).
+type failFS struct{}
+
+func (failFS) Open(name string) (fs.File, error) {
+	if name == "." {
+		return failDir{}, nil
+	}
+	return nil, fs.ErrNotExist
+}
+
+type failDir struct{}
+
+func (failDir) Stat() (fs.FileInfo, error) { return failDirInfo{}, nil }
+func (failDir) Read([]byte) (int, error)   { return 0, io.EOF }
+func (failDir) Close() error               { return errors.New("close failed") }
+
+type failDirInfo struct{}
+
+func (failDirInfo) Name() string       { return "." }
+func (failDirInfo) Size() int64        { return 0 }
+func (failDirInfo) Mode() fs.FileMode  { return fs.ModeDir | 0o755 }
+func (failDirInfo) ModTime() time.Time { return time.Time{} }
+func (failDirInfo) IsDir() bool        { return true }
+func (failDirInfo) Sys() any           { return nil }
+
+// doNoise performs the noise steps. What they return is C10's business; here they only have to
+// leave the runtime in a state in which every stop route still reaches the running guest.
+func doNoise(bg context.Context, rt wazero.Runtime, noise []string) (msg string) {
+	defer func() {
+		if r := recover(); r != nil {
+			msg = fmt.Sprintf("noise step panicked: %v", r)
+		}
+	}()
+	inst := func(ctx context.Context, bin []byte, cfg wazero.ModuleConfig) api.Module {
+		cm, err := rt.CompileModule(bg, bin)
+		if err != nil {
+			return nil
+		}
+		m, _ := rt.InstantiateModule(ctx, cm, cfg)
+		return m
+	}
+	for k, n := range noise {
+		name := fmt.Sprintf("noise%d", k)
+		switch n {
+		case "dup-name":
+			inst(bg, binHealthy, wazero.NewModuleConfig().WithName("a"))
+		case "failing-start":
+			inst(bg, binTrapStart, wazero.NewModuleConfig().WithName(name))
+		case "cancelled-start":
+			ctx, cancel := context.WithCancel(bg)
+			cancel()
+			inst(ctx, binSpinStart, wazero.NewModuleConfig().WithName(name))
+		case "other":
+			inst(bg, binHealthy, wazero.NewModuleConfig().WithName(name))
+		case "other-closed":
+			if m := inst(bg, binHealthy, wazero.NewModuleConfig().WithName(name)); m != nil {
+				m.Close(bg)
+			}
+		case "fs-close-error":
+			cfg := wazero.NewModuleConfig().WithName(name).WithFSConfig(wazero.NewFSConfig().WithFSMount(failFS{}, "/"))
+			if p, err := wasiproxy.New(bg, rt, cfg, 1, -1); err == nil {
+				// touch the pre-opened root directory as a WASI guest does: this opens it
+				p.Call(bg, "fd_fdstat_get", 3, 0)
+				p.Call(bg, "fd_filestat_get", 3, 64)
+				p.Call(bg, "fd_readdir", 3, 256, 128, 0, 200)
+			}
+		}
+	}
+	return ""
 }
 
 // listenerFactory attaches a listener that does nothing to every function.
@@ -319,6 +431,13 @@ func runCase(c *Case) (res Result) {
 		}
 	}
 
+	if !startEntry {
+		if msg := doNoise(bg, rt, c.Noise); msg != "" {
+			res.Msg = msg
+			return
+		}
+	}
+
 	// the trigger: armed by the heartbeat (and, with overlapping calls, once the terminating ones
 	// have returned), fired after the delay
 	armed := make(chan struct{})
@@ -327,7 +446,7 @@ func runCase(c *Case) (res Result) {
 	var firedAt atomic.Int64
 	go func() {
 		defer close(triggerDone)
-		if c.Cause != "cancel" && c.Cause != "close" && c.Cause != "close-code" {
+		if c.Cause != "cancel" && !c.closeCause() {
 			return
 		}
 		select {
@@ -346,6 +465,10 @@ func runCase(c *Case) (res Result) {
 			mod.Close(bg)
 		case "close-code":
 			mod.CloseWithExitCode(bg, c.Code)
+		case "rt-close":
+			rt.Close(bg) // its error (a noise module may fail to close) does not matter here
+		case "rt-close-code":
+			rt.CloseWithExitCode(bg, c.Code)
 		}
 	}()
 
@@ -547,9 +670,9 @@ func runCase(c *Case) (res Result) {
 	case out.Kind == wz.KExit && out.Exit == want:
 	case out.Kind == wz.KStack && class == "exit-or-overflow":
 		// call-stack exhaustion reached on the engine's own: the resource-limit carve-out
-		if (c.Cause == "close" || c.Cause == "close-code") && firedAt.Load() != 0 {
+		if c.closeCause() && firedAt.Load() != 0 {
 			// the closer has run by now whatever the call returned
-			if msg := checkClosed(mod, want); msg != "" {
+			if msg := checkClosed(mod, want, !c.runtimeCause()); msg != "" {
 				res.Msg = "after stack overflow and " + c.Cause + ": " + msg
 			}
 		}
@@ -561,16 +684,19 @@ func runCase(c *Case) (res Result) {
 	if startEntry {
 		return // no module handle is documented to be returned with an error
 	}
-	if msg := checkClosed(mod, want); msg != "" {
+	if msg := checkClosed(mod, want, !c.runtimeCause()); msg != "" {
 		res.Msg = msg
 	}
 	return
 }
 
 // checkClosed: afterwards the module is closed and a new call fails with the same exit error.
-func checkClosed(mod api.Module, want uint32) string {
+func checkClosed(mod api.Module, want uint32, newCall bool) string {
 	if !mod.IsClosed() {
 		return "the call returned the exit error but mod.IsClosed() is false"
+	}
+	if !newCall {
+		return "" // the runtime is closed: nothing is called in it any more
 	}
 	r, err := mod.ExportedFunction("nop").Call(context.Background())
 	var ee *sys.ExitError
@@ -671,7 +797,7 @@ func genCase(t *rapid.T) *Case {
 		}
 		return c
 	}
-	causes := []string{"cancel", "cancel", "timeout", "timeout", "close", "close-code", "done-cancel", "done-deadline"}
+	causes := []string{"cancel", "cancel", "timeout", "timeout", "close", "close-code", "rt-close", "rt-close-code", "done-cancel", "done-deadline"}
 	if c.Shape.Entry == "start" || c.Shape.Entry == "_start" {
 		causes = []string{"cancel", "cancel", "timeout", "timeout", "done-cancel", "done-deadline"} // no module handle to close
 	}
@@ -680,14 +806,17 @@ func genCase(t *rapid.T) *Case {
 		c.Flavor = rapid.SampledFrom([]string{"", "", "cause", "child"}).Draw(t, "flavor")
 	}
 	c.DelayUs = rapid.SampledFrom(delaysUs).Draw(t, "delay")
-	if c.Cause == "close-code" {
+	if c.Cause == "close-code" || c.Cause == "rt-close-code" {
 		c.Code = rapid.SampledFrom([]uint32{0, 1, 2, 255, 0x7fffffff, 0xfffffffe}).Draw(t, "code")
 	}
 	if c.Cause == "done-cancel" || c.Cause == "done-deadline" {
 		c.DelayUs = 0
 	}
 	startEntry := c.Shape.Entry == "start" || c.Shape.Entry == "_start"
-	if (c.Cause == "cancel" || c.Cause == "close" || c.Cause == "close-code") && !startEntry && rapid.IntRange(0, 2).Draw(t, "overlap") == 0 {
+	if !startEntry && rapid.IntRange(0, 1).Draw(t, "with-noise") == 0 {
+		c.Noise = rapid.SliceOfN(rapid.SampledFrom([]string{"dup-name", "dup-name", "failing-start", "cancelled-start", "other", "other-closed", "fs-close-error"}), 1, 3).Draw(t, "noise")
+	}
+	if (c.Cause == "cancel" || c.closeCause()) && !startEntry && rapid.IntRange(0, 2).Draw(t, "overlap") == 0 {
 		// other calls on the same instance overlap with the non-terminating one
 		rel := rapid.SampledFrom([]string{"same", "same", "value", "child"})
 		ov := &Overlap{
@@ -756,6 +885,9 @@ func labelsOf(c *Case, r Result) []string {
 	}
 	if c.Cache != "" {
 		l = append(l, "cache:"+c.Cache+":primed-by-runtime-with-option-"+c.Primed)
+	}
+	for _, n := range c.Noise {
+		l = append(l, "noise:"+n)
 	}
 	if ov := c.Overlap; ov != nil {
 		l = append(l, "overlapping-calls")
